@@ -83,6 +83,12 @@ def jobs(tier, seed):
     nb = file_len(big)
     J.append(dict(name="bf3-p257:replace:last-payload-bytes", kind="replace", shape=big, positions=[nb - 1, nb - 2, nb - 258], n=nb, tier=tier, timeout=7000, cost=400))
     J.append(dict(name="bf3-p257:cut:tail", kind="cut", shape=big, positions=[nb - 1, nb - 2], n=nb, tier=tier, timeout=7000, cost=200))
+    # MAC comparison must be equality of all 16 bytes: near-collisions of the authentic MAC are rejected
+    NEAR = [[[15, 1]], [[0, 0x80]], [[0, 1], [15, 1]], [[3, 0x5A], [9, 0x5A]], [[1, 0xFF], [2, 0xFF], [7, 0x0F], [8, 0x0F]]]
+    sh0 = shapes(tier)[0]
+    n0 = file_len(sh0)
+    for pi, pat in enumerate(NEAR):
+        J.append(dict(name="bf3-p5t:near-collision-mac:%d" % pi, kind="replace", shape=sh0, positions=[n0 - 1, n0 - 3, 40], n=n0, tier=tier, near=pat, timeout=3000, cost=150))
     J.append(dict(name="text:cut-inside-comment-header-rejected", kind="hdrcut", shape=shapes(tier)[0], positions=[0], n=0, timeout=600, cost=30))
     J.append(dict(name="vacuity:accepting-path-reachable", kind="reach", shape=shapes(tier)[0], positions=[0], n=file_len(shapes(tier)[0]), expect="violated", timeout=300))
     return J
@@ -217,7 +223,8 @@ def run_job(job):
 
         def h():
             M.reset()
-            M.tokens = LEVEL[0] == "classes+tokens"
+            M.tokens = LEVEL[0] == "classes+tokens" or bool(job.get("near"))
+            M.near = job.get("near")
             key = sym.sym_bytes("key", 16)
             vals = dict(key=key)
             f = build(bf, b2, sym, sh, vals)
@@ -307,7 +314,9 @@ def run_job(job):
                 runner.record_witness(pos=j, damaged=dam, original=raw, **vals)
             return ok
 
-        if kind == "replace" and STRUCT[j]:
+        if job.get("near"):
+            budgets = [("near-collision-tokens", 600 if quick else 1500)]
+        elif kind == "replace" and STRUCT[j]:
             # structural byte: try all 255 values, then the property's replacement classes, then classes with MAC tokens
             budgets = [("full", 45 if quick else 600), ("classes", 120 if quick else 900), ("classes+tokens", 1200 if quick else 3000)]
         else:
